@@ -443,9 +443,9 @@ class Convert:
     @staticmethod
     def args(draw, t):
         hdr = t[0]
-        form = draw(st.sampled_from(["field-fn", "fields-fn", "dict", "list", "dictconv", "method", "where", "passrow"]))
+        form = draw(st.sampled_from(["field-fn", "fields-fn", "dict", "list", "dictconv", "method", "where", "passrow", "where-passrow"]))
         a = {"form": form, "fn": draw(st.sampled_from(["tag", "str", "none"]))}
-        if form in ("field-fn", "dictconv", "method", "where", "passrow"):
+        if form in ("field-fn", "dictconv", "method", "where", "passrow", "where-passrow"):
             a["field"] = fieldspec(draw, hdr, max_n=1)[0]
         elif form == "fields-fn":
             a["field"] = fieldspec(draw, hdr, max_n=2)
@@ -480,6 +480,11 @@ class Convert:
             return etl.convert(etl.convert(t, a["field"], conv("str")), a["field"], "replace", "x", "Y")
         if form == "where":
             return etl.convert(t, a["field"], f, where=Convert._where)
+        if form == "where-passrow":
+            # both features together; the converter reads the row by position, by name and by attribute
+            name0 = t[0][0]
+            return etl.convert(t, a["field"], lambda v, row: ("pr", v, len(row), row[0], row[name0]), pass_row=True, where=Convert._where,
+                               failonerror=True)
         return etl.convert(t, a["field"], lambda v, row: ("pr", v, len(row)), pass_row=True)
 
     @staticmethod
@@ -499,7 +504,7 @@ class Convert:
         out = [tuple(hdr)]
         for r in t[1:]:
             r = tuple(r)
-            if form == "where" and not (len(r) > 0 and r[0] is not None):
+            if form in ("where", "where-passrow") and not (len(r) > 0 and r[0] is not None):
                 out.append(r)
                 continue
             o = []
@@ -512,6 +517,8 @@ class Convert:
                         v = ("" if v is None else str(v)).replace("x", "Y")
                     elif form == "passrow":
                         v = ("pr", v, len(r))
+                    elif form == "where-passrow":
+                        v = ("pr", v, len(r), r[0], r[0])
                     else:
                         v = f(v)
                 o.append(v)
